@@ -618,11 +618,21 @@ func c15ReplyCase(rt *rapid.T, rec *vt.Rec) {
 	// the caller side is a real Remote; the far end is scripted by the test
 	agentEnd, farEnd := newCodecPair("far:0", "near:0")
 	caller := &jsonrpc2.Remote{Codec: agentEnd, Server: &jsonrpc2.Server{}, Client: &jsonrpc2.Client{}}
+	clientOnly := rapid.IntRange(0, 3).Draw(rt, "clientOnly") == 0
+	if clientOnly {
+		// as the `vipnode client` command builds its pool connection: nothing is served on it
+		caller = &jsonrpc2.Remote{Codec: agentEnd}
+	}
 	go caller.Serve()
 	defer agentEnd.Close()
 	tmpl := rapid.SampledFrom(hostileReplies).Draw(rt, "reply")
 	preNoise := rapid.SliceOfN(rapid.SampledFrom([]string{`{"id":999,"jsonrpc":"2.0","result":1}`, `{"jsonrpc":"2.0","result":1}`, `{"id":"1","jsonrpc":"2.0","result":"string id"}`, `{"id":1.0,"jsonrpc":"2.0","result":"float id"}`, `{"id":null,"jsonrpc":"2.0","error":{"code":1,"message":"m"}}`}), 0, 3).Draw(rt, "noise")
 	dup := rapid.Bool().Draw(rt, "duplicate")
+	// the far end may also send requests of its own before it answers (the caller serves none of these names)
+	reqNoise := rapid.SliceOfN(rapid.SampledFrom([]string{`{"id":777,"jsonrpc":"2.0","method":"vipnode_whitelist","params":["abc"]}`, `{"id":777,"jsonrpc":"2.0","method":"vipnode_disconnect","params":[]}`, `{"id":777,"jsonrpc":"2.0","method":"","params":null}`, `{"id":777,"jsonrpc":"2.0","method":"x"}`}), 0, 2).Draw(rt, "requestsFromFarEnd")
+	var rmu sync.Mutex
+	sentReqs := map[string]string{}
+	gotReplies := map[string][]*jsonrpc2.Message{}
 	// far end: answer every request with the scripted reply
 	noiseSeq, nullSent := 0, false
 	go func() {
@@ -630,6 +640,22 @@ func c15ReplyCase(rt *rapid.T, rec *vt.Rec) {
 			m, err := farEnd.ReadMessage()
 			if err != nil {
 				return
+			}
+			if m.Request == nil {
+				// the caller's answer to one of the far end's own requests
+				rmu.Lock()
+				gotReplies[string(m.ID)] = append(gotReplies[string(m.ID)], m)
+				rmu.Unlock()
+				continue
+			}
+			for _, n := range reqNoise {
+				noiseSeq++
+				id := fmt.Sprintf("%d", 200000+noiseSeq)
+				n = strings.Replace(n, `"id":777`, `"id":`+id, 1)
+				rmu.Lock()
+				sentReqs[id] = n
+				rmu.Unlock()
+				farEnd.writeRaw([]byte(n))
 			}
 			for _, n := range preNoise {
 				// every unsolicited reply carries an id of its own (see genRawBytes for why)
@@ -693,7 +719,23 @@ func c15ReplyCase(rt *rapid.T, rec *vt.Rec) {
 	if el := time.Since(t0); el > 21*time.Second {
 		rt.Fatalf("caller %s returned only after %s of virtual time (deadline 20s) after reply %s (err=%v)", target, el, tmpl, err)
 	}
-	rec.Case(fmt.Sprintf("reply|%s|%s|%v|%v", target, tmpl, preNoise, dup), true, []string{"hostile-reply", "hostile-reply:" + target}, func() interface{} {
+	// every request of the far end got exactly one well-formed answer with its id and an error (nothing is served here)
+	synctest.Wait()
+	rmu.Lock()
+	for id, raw := range sentReqs {
+		rs := gotReplies[id]
+		if len(rs) != 1 {
+			rmu.Unlock()
+			rt.Fatalf("the far end's request %s received %d replies, want exactly one (caller built without a server: %v)", raw, len(rs), clientOnly)
+		}
+		if rs[0].Response == nil || rs[0].Response.Error == nil {
+			rmu.Unlock()
+			rt.Fatalf("the far end's request %s (no such method is served) was answered without an error: %v", raw, rs[0])
+		}
+	}
+	nReq := len(sentReqs)
+	rmu.Unlock()
+	rec.Case(fmt.Sprintf("reply|%s|%s|%v|%v|%v|%v", target, tmpl, preNoise, dup, clientOnly, reqNoise), true, []string{"hostile-reply", "hostile-reply:" + target, fmt.Sprintf("hostile-reply:requests-to-a-caller:%v", nReq > 0), fmt.Sprintf("hostile-reply:caller-without-server:%v", clientOnly)}, func() interface{} {
 		return map[string]interface{}{"target": "hostile reply to " + target, "reply": fmt.Sprintf("%.200s", tmpl), "noise_before": preNoise, "duplicate": dup, "caller_result": fmt.Sprint(err)}
 	})
 }
